@@ -833,7 +833,16 @@ fn twin_parsed(r: &mut Rng) {
     use chrono::format::Parsed;
     twin_parsed_zone();
     // extreme timestamps / offsets: an error, never a panic
-    for ts in [i64::MAX, i64::MAX - 1, i64::MAX - 86_400, i64::MIN, i64::MIN + 1, i64::MIN + 86_400, 8_210_266_876_799, 8_210_266_876_800, -8_334_601_228_800, -8_334_601_228_801] { for off in [0i32, 1, -1, 3600, -3600, 86_399, -86_399, i32::MAX, i32::MIN] {
+    for ts in [i64::MAX, i64::MAX - 1, i64::MAX - 86_400, i64::MIN, i64::MIN + 1, i64::MIN + 86_400, 8_210_266_876_799, 8_210_266_876_800, 8_210_266_876_740, -8_334_601_228_800, -8_334_601_228_801, -8_334_601_228_799, -8_334_601_228_740, 0, 60, -60] { for off in [0i32, 1, -1, 3600, -3600, 86_399, -86_399, i32::MAX, i32::MIN] {
+        // ... also with a seconds field beside the timestamp (second 60: the timestamp-derived value is stepped back one second)
+        for sec in [Some(60u32), Some(59), Some(0), Some(61)] { for ns in [None, Some(0u32), Some(999_999_999)] {
+            let mut q = Parsed::new(); q.timestamp = Some(ts); q.second = sec; q.nanosecond = ns;
+            case();
+            if guard(|| { let _ = q.to_naive_datetime_with_offset(off); }).is_err() { found("Parsed::to_naive_datetime_with_offset", format!("timestamp={} second={:?} nanosecond={:?} offset={}", ts, sec, ns, off), format!("panic: {}", last_panic()), "Ok or Err".into()); }
+            q.offset = Some(off);
+            case();
+            if guard(|| { let _ = q.to_datetime(); let _ = q.to_datetime_with_timezone(&Utc); }).is_err() { found("Parsed::to_datetime", format!("timestamp={} second={:?} offset={}", ts, sec, off), format!("panic: {}", last_panic()), "Ok or Err".into()); }
+        } }
         let mut p = Parsed::new(); p.timestamp = Some(ts);
         case();
         if guard(|| { let _ = p.to_naive_datetime_with_offset(off); }).is_err() { found("Parsed::to_naive_datetime_with_offset", format!("timestamp={} offset={}", ts, off), format!("panic: {}", last_panic()), "Ok or Err".into()); }
